@@ -33,6 +33,16 @@ class Namespace(object):
 class DType(object):
     def __init__(self, name, kind):
         self.name, self.kind = name, kind
+        self.str = {'f': '<f8', 'c': '<c16', 'i': '<i8', 'b': '|b1', 'O': '|O'}.get(kind, '?')
+        self.char = {'f': 'd', 'c': 'D', 'i': 'l', 'b': '?', 'O': 'O'}.get(kind, '?')
+        self.itemsize = {'f': 8, 'c': 16, 'i': 8, 'b': 1, 'O': 8}.get(kind, 8)
+
+    def __eq__(self, o):
+        return isinstance(o, DType) and o.kind == self.kind or (o is float and self.kind == 'f') or \
+            (o is complex and self.kind == 'c') or (o is int and self.kind == 'i')
+
+    def __hash__(self):
+        return hash(self.kind)
 
     def __repr__(self):
         return 'dtype(%s)' % self.name
